@@ -120,13 +120,14 @@ def make(ws, pol, pha, msb, cs_high=False):
                                     "transmission, most significant bit first" + ("" if msb else " [tree option msb_first=False: LSB first]"))
             c.ensure("sdo_changes_only_on_output_edges", z3.Implies(z3.Not(output), c.nx(O["o_sdo"]) == O["o_sdo"]),
                      clause="data changes on the leading edge (only)")
-            c.cover("all_bits_returned", oe == ws)
-            c.cover("second_word_bit_returned", z3.And(oe == 1, words == 1, O["o_sdo"] == 1))
+            c.cover("all_bits_returned", oe == ws, reach=ws <= 9)
+            c.cover("second_word_bit_returned", z3.And(oe == 1, words == 1, O["o_sdo"] == 1), reach=ws <= 9)
 
-        c.cover("word_reported", O["o_word_complete"] == 1)
-        c.cover("second_word_of_transaction_reported", z3.And(words == 2, O["o_word_complete"] == 1, O["o_word_in"] != 0))
+        # (deep situations -- two whole words of a wide word size -- are guarded as satisfiable-with-invariant only)
+        c.cover("word_reported", O["o_word_complete"] == 1, reach=ws <= 17)
+        c.cover("second_word_of_transaction_reported", z3.And(words == 2, O["o_word_complete"] == 1, O["o_word_in"] != 0), reach=ws <= 9)
         c.cover("deselected_mid_word", z3.And(z3.Not(selected), cnt != 0) if ws > 1 else z3.Not(selected))
-        c.cover_depth = 4 * ws + 10
+        c.cover_depth = min(4 * ws + 10, 80)
         c.bmc_depth = max(c.bmc_depth, 4 * ws + 12)
     return contract
 
